@@ -265,12 +265,15 @@ emit(f"""// The planner's choice of index ranges: every range query it returns c
 api("(*DB).DropCollection", "write", coll="name")
 api("(*DB).Insert", "write", coll="collectionName", extra="//@   requires docs: (forall ((j (_ BitVec 64))) (! (=> (bvult j (len docs)) (not (= (idx docs j) null))) :pattern ((idx docs j))))")
 api("(*DB).createCollectionWithDocs", "write", coll="name", extra="//@   requires docs: (forall ((j (_ BitVec 64))) (! (=> (bvult j (len docs)) (not (= (idx docs j) null))) :pattern ((idx docs j))))")
-emit("""//@ func assignObjectIds
-//@   use (store heapcomps)
+emit("""// C12: a fresh id is assigned only to a document that has no _id or the empty string; any other supplied _id
+// (well-formed or not, string or not) is left for validation to judge
+//@ func assignObjectIds
+//@   use (store heapcomps paths values)
 //@   tags (C04 C12 C20)
 //@   requires docs: (forall ((j (_ BitVec 64))) (! (=> (bvult j (len docs)) (not (= (idx docs j) null))) :pattern ((idx docs j))))
 //@   modifies (docheap*)
 //@   extra allocates (yes)
+//@   assert-before[C12] Document.Set only-when-missing: (or (not (hasFrom (@ doc fields) (lit "_id") (bv 0))) (= (getFrom (@ doc fields) (lit "_id") (bv 0)) (vstr TY_string sempty)))
 
 //@ func (*DB).insert
 //@   use (store keys heapcomps dockeys)
